@@ -457,7 +457,12 @@ func (g *Gen) NewBlock(t *Tape, parent *BlockRec, txs []*wire.MsgTx) *BlockRec {
 	cb.Payload = payload
 	nOut := 1 + t.Int(2)
 	for i := 0; i < nOut; i++ {
-		hh, _ := g.pickPayee(t, 60)
+		var hh [32]byte
+		if t == zeroTape {
+			hh = g.Parties[0].Hashes[0]
+		} else {
+			hh, _ = g.pickPayee(t, 60)
+		}
 		cb.AddTxOut(wire.NewTxOut(int64(100000000+int64(t.Int(5))*1000000+int64(hdr.Height)), stdScript(hh)))
 	}
 	msg.AddTransaction(cb)
